@@ -1,5 +1,5 @@
 (* POP state machine model driver (Pop/SmDefs.v, concrete reference-count machine).
-   ops:  begin <ki> | conn <a> <parent> <dup> <groups> | set <a> | cmp <a|-> <hint> | sm
+   ops:  begin <ki> | conn <a> <parent> <dup> <groups> | set <a> | cmp <a|-> <hint> | sm | react
    ids:  a<n> -> 3n, v<n> -> 3n+1, b<n> -> 3n+2 *)
 let n_of_int (i : int) : n = if i <= 0 then N0 else Npos (pos_of_int i)
 let int_of_n (x : n) : int = match x with N0 -> 0 | Npos p -> int_of_pos p
@@ -90,5 +90,18 @@ let handle op args = match op, args with
      | Ok (s, r) -> state := Some s; let i = int_of_z r in if i < 0 then "-1" else if i > 0 then "1" else "0"
      | Abort c -> "ABORT " ^ string_of_int (int_of_n c))
   | "sm", [] -> dump (get ())
+  | "react", [] ->
+    (* C20: the re-activation sweep of the harness (`on A react`): setState to every block at the fully-valid level
+       (ids in increasing order, as the harness sorts them), then back to the original tip. Pop/SmLaterDefs.v *)
+    let s = get () in
+    let ids = List.sort (fun x y -> compare (int_of_n x) (int_of_n y)) (full_ids s) in
+    (match react s ids with
+     | Ok ((s', l), back) ->
+       state := Some s';
+       let fails = List.filter (fun (_, ok) -> not ok) l in
+       "react n=" ^ string_of_int (List.length l) ^
+       (if fails = [] && back then "" else
+          " FAIL" ^ String.concat "" (List.map (fun (t, _) -> " " ^ name t ^ "(false)") fails) ^ (if back then "" else " back"))
+     | Abort c -> "ABORT " ^ string_of_int (int_of_n c))
   | _ -> failwith ("unknown op " ^ op)
 let () = main_loop handle
